@@ -265,18 +265,44 @@ PROBE_TEXTS = ["", "5", "0", "abc", ".", "-", "Yes", "T", "None"]
 
 def _rnv_problems(c):
     """a class synthesised with RequireNullValue in front accepts exactly null values"""
+    from maflib.column import MafCustomColumnRecord
+    # RequireNullValue works through MafCustomColumnRecord.validate; over a base that is
+    # not a custom column nothing calls __validate__ (a finding of its own signature)
+    tag = "" if issubclass(c, MafCustomColumnRecord) else "/base-is-not-a-custom-column"
     prob = []
     for t in PROBE_TEXTS:
         try:
             col = c.build("n", t)
             errs = col.validate()
             if col.is_null() and errs:
-                prob.append("null-rejected:" + repr(t))
+                prob.append(tag + " null-rejected:" + repr(t))
             if not col.is_null() and not errs:
-                prob.append("nonnull-accepted:" + repr(t))
+                prob.append(tag + " nonnull-accepted:" + repr(t))
         except Exception:
             pass                                   # refused at build time: rejected
     return prob
+
+
+CONJ_TEXTS = ["0", "", "-1", "abc", "1", "5", "0.5", ".", "Yes", "T", "ACGT", "-"]
+
+
+def _accepts(c, t):
+    try:
+        return not c.build("n", t).validate()
+    except Exception:
+        return False
+
+
+def _conj_problems(c):
+    """does the synthesised class accept a text that its base (inherited constraint) or its
+    extra class (added constraint) rejects?  (method override is not conjunction)"""
+    e, b = c.__bases__
+    inh = [t for t in CONJ_TEXTS if _accepts(c, t) and not _accepts(b, t)]
+    add = [t for t in CONJ_TEXTS if _accepts(c, t) and not _accepts(e, t)]
+    if not inh and not add:
+        return []
+    return ["override-not-conjunctive/%s<-%s accepted although the base rejects: %s; accepted although the extra class rejects: %s"
+            % (b.__name__, e.__name__, inh, add)]
 
 
 def _real(term, byname):
@@ -301,6 +327,7 @@ def run_impl(case):
     acc = set()
     rnv = set()
     rnv_seen = set()
+    conj = set()
     try:
         write_files(wd, case["files"])
         for mode, order in case["runs"]:
@@ -320,6 +347,8 @@ def run_impl(case):
                         continue
                     acc.update(_accessor_problems(s))
                     for n, c in s.__column_dict__().items():
+                        if case.get("probe_conjunctive") and id(c) not in known:
+                            conj.update(_conj_problems(c))
                         if id(c) not in known and c.__bases__[0] is RequireNullValue:
                             key = json.dumps(_term_of(c, known))
                             if key not in rnv_seen:
@@ -349,7 +378,7 @@ def run_impl(case):
                     typeok[k] = False
                 except KeyError:
                     typeok[k] = True       # unknown type name: reported by the type check
-    return {"runs": runs, "_typeok": typeok, "_acc": sorted(acc), "_rnv": sorted(rnv)}
+    return {"runs": runs, "_typeok": typeok, "_acc": sorted(acc), "_rnv": sorted(rnv), "_conj": sorted(conj)}
 
 
 def comparable(obs):
@@ -474,8 +503,9 @@ def oracle(case, obs):
     runs = obs["runs"]
     for p in obs.get("_acc", []):
         out.append(p + " (scheme instance accessors disagree with the resolved layout)")
+    out.extend(obs.get("_conj", []))
     for p in obs.get("_rnv", []):
-        out.append("require-null-override-not-enforced " + p)
+        out.append("require-null-override-not-enforced" + p)
     # order independence: every order of the same definition set gives the same map, or an error in all
     groups = {}
     for (mode, order), r in zip(case["runs"], runs):
@@ -899,6 +929,17 @@ def corpus():
     out.append(_case("corpus", f, _perm_runs(None, f), "a root filtering an absent column was accepted"))
     f = _files_of([A, B, Z])
     out.append(_case("corpus", f, _perm_runs(None, f), "override keeps position, new columns appended, filter applied"))
+    # "enforces both the inherited and the added constraint": probes of fixed class pairs
+    P0 = {"version": "gdc-1.0.0", "annotation-spec": "gdc-1.0.0-p", "extends": "None",
+          "columns": [["one", "OneBasedIntegerColumn"], ["txt", "NullableStringColumn"], ["pos", "OneBasedIntegerColumn"]],
+          "filtered": "None"}
+    P1 = {"version": "gdc-1.0.0", "annotation-spec": "gdc-1.0.0-q", "extends": "gdc-1.0.0-p",
+          "columns": [["one", "ZeroBasedIntegerColumn"], ["txt", "RequireNullValue"], ["pos", "RequireNullValue"]],
+          "filtered": "None"}
+    f = _files_of([P0, P1])
+    c = _case("corpus", f, _perm_runs(None, f), "OneBasedIntegerColumn redefined with ZeroBasedIntegerColumn accepts 0; RequireNullValue overrides are conjunctive")
+    c["probe_conjunctive"] = True
+    out.append(c)
     return out
 
 
